@@ -636,6 +636,10 @@ def build_infinite(ctx, rng, i):
             psi.canonical_form_infinite2()
         psi.test_sanity()
     except Exception as e:
+        if isinstance(e, RuntimeError) and 'did not converge' in str(e):
+            # the iterative orthogonalisation gave up and says so (default tol 1e-15 is at round-off): a refusal, not a wrong state
+            ctx.count('canonical_form_infinite%d.did_not_converge' % which)
+            raise _Skip()
         ctx.violation('canonical_form_infinite%d:raises-%s' % (which, type(e).__name__), traceback.format_exc()[-500:], case)
         return
     ctx.count('infinite.cases')
